@@ -28,6 +28,7 @@ from pyoak.origin import NO_ORIGIN
 from proto import A, dumps
 from run import Case
 import zoo_c20 as z
+from kernels_tie import optional_legacy_xpath as optional_obligation  # noqa: F401  (legacy `_match_node_xpath` regenerated from legacy/match/xpath.py: optional bridge)
 
 PROPERTY = "C20"
 LEAN_MODULE = "PyOak.Props.C20All"
@@ -105,7 +106,11 @@ TRUSTED = ["heap-level cases: the model heap after the history equals the real o
            "tree-level cases (ldfs / lbfs / lgather / lxpath / lcalc): the model reads the chain off the structure of the tree "
            "value; that this is what the heap's parent pointers give is now a theorem (heapChain_isChain / heapChain_unique / "
            "legacy_match_heap, given C18's invariant) and is exercised by the heap-level cases",
-           "prune / filter callbacks are modelled as pure functions of the node object"]
+           "prune / filter callbacks are modelled as pure functions of the node object",
+           "optional tie by translation (legacy `_match_node_xpath`): harness/py2lean_k.py `generate_legacy_xpath` + its idiom table "
+           "LEGACY_IDIOMS (node.parent / parent_field / parent_index / ancestors() / isinstance as abstract primitives of the node, "
+           "instantiated in Props/GenBridgeLegacyXPath.lean with the heap model's LState.parent / pfield / pindex / Legacy.ancestors / mro; "
+           "the sentinel class test as a constructor test; truthiness of Optional[Field] = `is not None`; one unit of fuel per call depth)"]
 ASSUMPTIONS = ["trees are attached and admissible: every node object was created once and sits at exactly one position",
                "history edits are the library's own operations and are only continued while they succeed (a rejected "
                "edit ends the history: rollback is property C19); a class is not re-declared under the same name",
